@@ -17,6 +17,7 @@ import (
 	"os"
 	"os/exec"
 	"path/filepath"
+	"regexp"
 	"runtime"
 	"runtime/debug"
 	"sort"
@@ -187,7 +188,9 @@ func sameViol(a, b []Violation) bool {
 		return false
 	}
 	for i := range a {
-		if a[i] != b[i] {
+		// details may quote library error text whose wording depends on Go map
+		// iteration order; the violation class and unit must be identical
+		if a[i].Site != b[i].Site || a[i].Shape != b[i].Shape || a[i].Unit != b[i].Unit {
 			return false
 		}
 	}
@@ -307,10 +310,34 @@ type Finding struct {
 	Shape    string `json:"shape"`
 	What     string `json:"what"`
 	Commit   string `json:"commit,omitempty"`
+	// ShapeRe, when set, replaces the exact shape match by a regular
+	// expression over the shape (used where one defect at one call site is
+	// reached through a family of operand shapes).
+	ShapeRe string `json:"shape_re,omitempty"`
+	re      *regexp.Regexp
 }
 
-func loadFindings(path, prop string) map[string]Finding {
-	out := map[string]Finding{}
+// findingSet holds the known findings of one property.
+type findingSet struct {
+	exact map[string]Finding
+	res   []Finding
+}
+
+// match returns the finding covering (site, shape) and its identifying key.
+func (fs *findingSet) match(site, shape string) (Finding, string, bool) {
+	if f, ok := fs.exact[site+"\x00"+shape]; ok {
+		return f, site + "\x00" + shape, true
+	}
+	for _, f := range fs.res {
+		if f.Site == site && f.re.MatchString(shape) {
+			return f, site + "\x00~" + f.ShapeRe, true
+		}
+	}
+	return Finding{}, "", false
+}
+
+func loadFindings(path, prop string) *findingSet {
+	out := &findingSet{exact: map[string]Finding{}}
 	f, err := os.Open(path)
 	if err != nil {
 		return out
@@ -328,7 +355,16 @@ func loadFindings(path, prop string) map[string]Finding {
 			continue
 		}
 		if fd.Property == prop && fd.Status == "known" {
-			out[fd.Site+"\x00"+fd.Shape] = fd
+			if fd.ShapeRe != "" {
+				re, err := regexp.Compile(fd.ShapeRe)
+				if err != nil {
+					continue
+				}
+				fd.re = re
+				out.res = append(out.res, fd)
+				continue
+			}
+			out.exact[fd.Site+"\x00"+fd.Shape] = fd
 		}
 	}
 	return out
@@ -598,12 +634,14 @@ func runParent(ck *Check, tier string, seed int64, emit bool) int {
 		return a.Shape < b.Shape
 	})
 	knownHit := map[string]int{}
+	knownBy := map[string]Finding{}
 	var fresh []Violation
 	freshKeys := map[string]bool{}
 	for _, v := range merged.Violations {
 		key := v.Site + "\x00" + v.Shape
-		if _, ok := known[key]; ok {
-			knownHit[key]++
+		if f, fkey, ok := known.match(v.Site, v.Shape); ok {
+			knownHit[fkey]++
+			knownBy[fkey] = f
 			continue
 		}
 		if !freshKeys[key] {
@@ -617,8 +655,12 @@ func runParent(ck *Check, tier string, seed int64, emit bool) int {
 	}
 	sort.Strings(knownKeys)
 	for _, k := range knownKeys {
-		f := known[k]
-		fmt.Printf("KNOWN-FINDING: property=%s site=%s shape=%s :: %s\n", ck.ID, f.Site, f.Shape, f.What)
+		f := knownBy[k]
+		shape := f.Shape
+		if f.ShapeRe != "" {
+			shape = "~" + f.ShapeRe
+		}
+		fmt.Printf("KNOWN-FINDING: property=%s site=%s shape=%s :: %s\n", ck.ID, f.Site, shape, f.What)
 	}
 	exit := 0
 	if emit {
